@@ -14,6 +14,7 @@ import (
 	"time"
 
 	v3core "github.com/envoyproxy/go-control-plane/envoy/config/core/v3"
+	discoveryv3 "github.com/envoyproxy/go-control-plane/envoy/service/discovery/v3"
 
 	"github.com/kitex-contrib/xds/core/xdsresource"
 )
@@ -177,45 +178,72 @@ func verifYield(point int, rt xdsresource.ResourceType, name string) {
 	}
 }
 
-// sender progress counters: tops = loop iterations started, gots = items taken from
-// streamCh/reqCh. The sender is idle in its select iff tops == gots+1.
-type verifSenderStat struct{ tops, gots int }
+// sender progress counters, keyed by the client's request channel.
+// produced: enq = requests handed to sendRequest, pub = streams handed to streamCh;
+// consumed: gotReq / gotStream = taken by the sender, drained = removed by clearRequestCh;
+// tops = sender loop iterations started. The sender is idle with nothing in flight iff
+// enq == gotReq+drained, pub == gotStream and tops == gotReq+gotStream+1.
+type verifSenderStat struct{ tops, gotReq, gotStream, enq, pub, drained int }
 
 var (
 	verifSenderMu    sync.Mutex
-	verifSenderStats = map[*xdsClient]*verifSenderStat{}
+	verifSenderStats = map[chan *discoveryv3.DiscoveryRequest]*verifSenderStat{}
 )
+
+func verifStat(ch chan *discoveryv3.DiscoveryRequest) *verifSenderStat {
+	st := verifSenderStats[ch]
+	if st == nil {
+		st = &verifSenderStat{}
+		verifSenderStats[ch] = st
+	}
+	return st
+}
 
 func verifSender(c *xdsClient, kind int) {
 	verifSenderMu.Lock()
-	st := verifSenderStats[c]
-	if st == nil {
-		st = &verifSenderStat{}
-		verifSenderStats[c] = st
-	}
-	if kind == 0 {
+	st := verifStat(c.reqCh)
+	switch kind {
+	case 0:
 		st.tops++
-	} else {
-		st.gots++
+	case 1:
+		st.gotStream++
+	case 2:
+		st.gotReq++
 	}
 	verifSenderMu.Unlock()
 }
 
-// VerifSenderIdle reports whether the sender goroutine is parked in its select with nothing
-// left in the request channel or the stream hand-off channel.
+// verifProduced: kind 0 = a request is about to be enqueued, 1 = a stream is about to be
+// published, 2 = a request was removed by clearRequestCh.
+func verifProduced(ch chan *discoveryv3.DiscoveryRequest, kind int) {
+	verifSenderMu.Lock()
+	st := verifStat(ch)
+	switch kind {
+	case 0:
+		st.enq++
+	case 1:
+		st.pub++
+	case 2:
+		st.drained++
+	}
+	verifSenderMu.Unlock()
+}
+
+// VerifSenderIdle reports whether the sender goroutine is parked in its select and everything
+// produced for it (requests, stream hand-offs) has been consumed and fully processed.
 func (m *xdsResourceManager) VerifSenderIdle() bool {
 	c := m.client
 	verifSenderMu.Lock()
-	st := verifSenderStats[c]
-	idle := st != nil && st.tops == st.gots+1
+	st := verifStat(c.reqCh)
+	idle := st.enq == st.gotReq+st.drained && st.pub == st.gotStream && st.tops == st.gotReq+st.gotStream+1
 	verifSenderMu.Unlock()
-	return idle && len(c.reqCh) == 0 && len(c.streamCh) == 0
+	return idle
 }
 
 // VerifForget drops the bookkeeping kept for a manager's client.
 func (m *xdsResourceManager) VerifForget() {
 	verifSenderMu.Lock()
-	delete(verifSenderStats, m.client)
+	delete(verifSenderStats, m.client.reqCh)
 	verifSenderMu.Unlock()
 }
 
